@@ -906,8 +906,10 @@ func genBig(r *Rng, kind string) rtcp.Packet {
 	case "CCFB":
 		v := &rtcp.CCFeedbackReport{SenderSSRC: uint32(r.Bits(32, 32)), ReportTimestamp: uint32(r.Bits(32, 32))}
 		nb := r.Pick(2, 3, 4)
-		for i := 0; i < nb; i++ {
+		total := 0
+		for i := 0; i < nb || total < 32772; i++ { // at least 65544 octets of metric blocks: past the 16-bit octet count
 			n := r.Pick(16384, 16372, 16383, 12000)
+			total += n
 			b := rtcp.CCFeedbackReportBlock{MediaSSRC: uint32(r.Bits(32, 32)), BeginSequence: uint16(r.Intn(65536 - n))}
 			for j := 0; j < n; j++ {
 				b.MetricBlocks = append(b.MetricBlocks, genMetric(r, false))
